@@ -72,7 +72,7 @@ type ChunkSpec struct {
 
 // FaultSpec describes the failure of the device.
 type FaultSpec struct {
-	Kind   string `json:"kind"` // none | eof | ueof | custom | partial
+	Kind   string `json:"kind"` // none | eof | ueof | custom | partial | partialeof
 	At     int64  `json:"at"`   // number of bytes deliverable before the fault
 	Sticky bool   `json:"sticky"`
 }
@@ -83,6 +83,7 @@ type ItemDirective struct {
 	PassCount int   `json:"pass_count"`     // -1: all samples pass
 	Bins      []int `json:"bins,omitempty"` // Q histogram over ten bins (sums to s); nil: flat
 	Edge      bool  `json:"edge,omitempty"` // put Q values exactly on the lower bin edge (and 1.0 in the last bin)
+	FailHigh  bool  `json:"fail_high,omitempty"` // two-sided items: failing samples have Q near 1 (bin 9) instead of near 0
 }
 
 // RunnerSpec says whether runners are scripted or real.
